@@ -258,6 +258,10 @@ func GetContextFromv1alpha1Rollout(rollout *appsv1alpha1.Rollout) *validateConte
 	switch strings.ToLower(rollout.Annotations[appsv1alpha1.RolloutStyleAnnotation]) {
 	case "", strings.ToLower(string(appsv1alpha1.CanaryRollingStyle)):
 		targetRef := rollout.Spec.ObjectRef.WorkloadRef
+		if targetRef == nil {
+			// workloadRef is optional in the schema; its absence is reported by the spec validation
+			break
+		}
 		if targetRef.APIVersion == apps.SchemeGroupVersion.String() && targetRef.Kind == reflect.TypeOf(apps.Deployment{}).Name() {
 			style = appsv1alpha1.CanaryRollingStyle
 		}
